@@ -70,6 +70,10 @@ type syncRunner struct {
 	recoveryTaint  bool // a start-up with a recovery window left stale state behind: later violations are its consequences
 	broken    bool           // RangeTransactions failed: the transaction store is inconsistent (sticky)
 
+	// C02 (wallet level): every wallet transaction that was delivered to the wallet (its block was on the best chain while
+	// the wallet was running and synced, it was found by a start-up rescan/recovery, or it arrived unconfirmed)
+	seen map[int]txSpec
+
 	// NotificationServer client of the running wallet and the notification oracle's view
 	col      *ntfnCollector
 	cchain   []chainhash.Hash // the chain a client following the attached blocks has (index = height)
@@ -355,6 +359,7 @@ func (r *syncRunner) exec1(op string) (string, string) {
 		r.env = env
 		r.txs, r.txID, r.blkTxs = map[int]*wire.MsgTx{}, map[chainhash.Hash]int{}, map[int][]txSpec{}
 		r.top, r.maxTip, r.malformed, r.zeroAt, r.broken, r.brokenReported, r.recoveryTaint = 0, 0, false, map[int32]bool{}, false, false, false
+		r.seen = map[int]txSpec{}
 		r.addrs = nil
 		r.recW = uint32(atoi(kv["recw"]))
 		if atoi(kv["W"]) != waddrmgr.MaxReorgDepth {
@@ -495,6 +500,7 @@ func (r *syncRunner) exec1(op string) (string, string) {
 			return "bad-op", ""
 		}
 		tx := r.mkTx(txSpec{atoi(kv["tx"]), false})
+		r.seen[atoi(kv["tx"])] = txSpec{atoi(kv["tx"]), false}
 		rec, _ := wtxmgr.NewTxRecordFromMsgTx(tx, time.Unix(1500000000, 0))
 		if !r.env.fc.deliver(chain.RelevantTx{TxRecord: rec}) {
 			return "deliver-timeout", ""
@@ -816,7 +822,89 @@ func (r *syncRunner) oracle(ctx string) string {
 	if v != "" && ctx == "startup-recovery" {
 		r.recoveryTaint = true
 	}
-	return v
+	return joinV(v, r.oracleC02(ctx))
+}
+
+// oracleC02 is C02's wallet-level clause on the real wallet, against the ground truth of the fake backend (no model):
+// what the wallet reports per transaction (Store.TxDetails, Store.RangeTransactions) must equal
+//   - every wallet transaction of a best-chain block: confirmed in exactly that block
+//     (wallet.tx-missing, wallet.tx-on-best-chain-reported-unconfirmed, wallet.tx-confirmed-in-wrong-block);
+//   - every delivered transaction that is in no best-chain block (its block was disconnected, or it never was mined):
+//     unconfirmed if it is not a coinbase, gone if it is (wallet.stale-tx-still-confirmed, wallet.stale-tx-lost,
+//     wallet.stale-coinbase-kept).
+// The engine's transactions spend external outputs only, so there are no dependants and no conflicts.  Skipped where
+// the ground truth is not unambiguous: malformed streams, an inconsistent store, a not yet chain-synced wallet, cases
+// tainted by a start-up with a recovery window that left stale state behind.
+func (r *syncRunner) oracleC02(ctx string) string {
+	if r.malformed || !r.env.running || r.broken || r.recoveryTaint || !r.env.w.ChainSynced() {
+		return ""
+	}
+	w := r.env.w
+	onBest := map[int]*fblock{}
+	for h := int32(1); ; h++ {
+		b := r.env.fc.at(h)
+		if b == nil {
+			break
+		}
+		for _, spec := range r.blkTxs[b.id] {
+			onBest[spec.id] = b
+			r.seen[spec.id] = spec
+		}
+	}
+	ids := make([]int, 0, len(r.seen))
+	for id := range r.seen {
+		ids = append(ids, id)
+	}
+	sort.Ints(ids)
+	var v []string
+	add := func(key, f string, a ...interface{}) {
+		if len(v) < 3 {
+			v = append(v, "C02 key=wallet."+key+"."+ctx+": "+fmt.Sprintf(f, a...))
+		}
+	}
+	_ = walletdb.View(w.Database(), func(tx walletdb.ReadTx) error {
+		ns := tx.ReadBucket(namespaces.tx)
+		for _, id := range ids {
+			spec := r.seen[id]
+			mtx := r.txs[id]
+			if mtx == nil {
+				continue
+			}
+			h := mtx.TxHash()
+			d, err := w.TxStore.TxDetails(ns, &h)
+			if err != nil {
+				add("tx-details-error", "TxDetails(tx %d): %v", id, err)
+				continue
+			}
+			b := onBest[id]
+			switch {
+			case b != nil && d == nil:
+				add("tx-missing", "tx %d is in best-chain block %d (height %d) and was delivered, but the wallet does not know it", id, b.id, b.height)
+			case b != nil && d.Block.Height == -1:
+				add("tx-on-best-chain-reported-unconfirmed", "tx %d is in best-chain block %d (height %d) but the wallet reports it unconfirmed", id, b.id, b.height)
+			case b != nil && (d.Block.Height != b.height || d.Block.Hash != b.hash):
+				add("tx-confirmed-in-wrong-block", "tx %d is in best-chain block %d (height %d) but the wallet reports it confirmed at height %d in block %s", id, b.id, b.height, d.Block.Height, r.env.fc.idOf(d.Block.Hash))
+			case b == nil && d != nil && d.Block.Height != -1:
+				add("stale-tx-still-confirmed", "tx %d is in no best-chain block but the wallet reports it confirmed at height %d in block %s", id, d.Block.Height, r.env.fc.idOf(d.Block.Hash))
+			case b == nil && !spec.coinbase && d == nil:
+				add("stale-tx-lost", "tx %d was delivered and is in no best-chain block: it should be unconfirmed, the wallet does not know it any more", id)
+			case b == nil && spec.coinbase && d != nil:
+				add("stale-coinbase-kept", "coinbase tx %d of a disconnected block is still in the wallet (unconfirmed)", id)
+			}
+		}
+		return nil
+	})
+	// nothing else is reported confirmed
+	_, _, reported, _ := r.records()
+	for _, m := range reported {
+		b := onBest[m.tx]
+		if b == nil {
+			add("stale-tx-still-confirmed", "tx %d is reported confirmed at height %d in block %s but is in no best-chain block", m.tx, m.height, r.env.fc.idOf(m.hash))
+		} else if b.height != m.height || b.hash != m.hash {
+			add("tx-confirmed-in-wrong-block", "tx %d is reported confirmed at height %d in block %s, the best chain has it in block %d (height %d)", m.tx, m.height, r.env.fc.idOf(m.hash), b.id, b.height)
+		}
+	}
+	return strings.Join(v, "; ")
 }
 
 func (r *syncRunner) oracle1(ctx string) string {
@@ -1170,7 +1258,7 @@ func (syncEngine) Generate(rng *rand.Rand, tier string) []core.Case {
 	// start-up path, densely: every few steps the wallet is stopped, the backend extends or reorganises (wallet
 	// transactions in the stale blocks, some mined again on the new branch), and the wallet restarts — alternately
 	// with and without a recovery window
-	for i := 0; i < n/4; i++ {
+	for i := 0; i < n/4 && i < 60; i++ {
 		recw := 0
 		if i%2 == 1 {
 			recw = 1 + rng.Intn(5)
@@ -1216,7 +1304,7 @@ func (syncEngine) Generate(rng *rand.Rand, tier string) []core.Case {
 	}
 	// notification coalescing: pure rollbacks (empty branch), repeated connects, equal-length reorgs and the
 	// BlockConnected-before-RelevantTx order, which leave entries pending in the NotificationServer
-	for i := 0; i < n/3; i++ {
+	for i := 0; i < n/3 && i < 60; i++ {
 		g := mk(0)
 		for j := 0; j < steps; j++ {
 			switch x := rng.Intn(12); {
